@@ -350,6 +350,16 @@ def run(tier):
     dec = f.call_roots("ZSTD_decompressStream")
     atend = guards.rel_edges(f, lambda a: any(y.get("f") == "decompressedOffset" for y in f.walk_resolved(a)), "==",
                              lambda b_: "f:dOffset" in f.anchors(b_, depth=3), truth=True)
+    # it must be the LOOP's own condition: the test that follows, on its false edge, the `decompressedOffset < offset + len` test of the
+    # loop header (the same comparison also appears as a verdict after the frame completes; that one does not keep the loop going)
+    short = guards.rel_edges(f, lambda a: any(y.get("f") == "decompressedOffset" for y in f.walk_resolved(a)), "<",
+                             lambda b_: any(strip_casts(y).get("rk") == "p" for y in f.walk_resolved(b_)), truth=False)
+    after_short = {e[1] for e in short}
+    short_blocks = {e[0] for e in short}
+    atend_false = guards.rel_edges(f, lambda a: any(y.get("f") == "decompressedOffset" for y in f.walk_resolved(a)), "==",
+                                   lambda b_: "f:dOffset" in f.anchors(b_, depth=3), truth=False)
+    first = {e[0] for e in atend_false if e[1] in short_blocks}     # `(x == end) || (x < offset + len)`: the other order of the same condition
+    atend = [e for e in atend if e[0] in after_short or e[0] in first]
     ok = bool(dec) and bool(atend) and any(d in f.flow([(e[1], 0)]) for e in atend for d in dec)
     res.check(ok, "T3.cut", "whole-frame-read-completes-the-frame", f.loc, "the decoding loop continues while decompressedOffset equals the frame's end in the table",
               "ZSTD_seekable_decompress stops as soon as the requested bytes are produced even when the read ends where the frame ends: the frame never "
